@@ -606,17 +606,19 @@ structure FS (α : Type) where
   read : ConfigFile α → Option (List (String × Val))
 
 inductive LoadErr where
-  | notFound      -- `--config-path` does not exist / holds no config file
-  | io            -- `canonicalize` of a missing directory, unreadable file
+  | notFound      -- `--config-path` does not exist / holds no config file; `canonicalize` of a
+                  -- missing start directory (`ErrorKind::NotFound` as well)
+  | io            -- unreadable file
   | invalidData   -- TOML / type error in the file
   | panic         -- `override_value` panicked in `apply_to`
   deriving DecidableEq, Repr
 
 /-- mod.rs:357-395 `resolve_project_file`: the ancestors of `dir`, nearest first, then the home
-directory, then `<config dir>/rustfmt`.  `fs::canonicalize` fails for a missing `dir`. -/
+directory, then `<config dir>/rustfmt`.  `fs::canonicalize` fails for a missing `dir`
+(`ErrorKind::NotFound`). -/
 def resolveProjectFile {α} [DecidableEq α] (fs : FS α) (dir : List α) :
     Except LoadErr (Option (ConfigFile α)) :=
-  if !dirExists fs.tree dir then .error .io
+  if !dirExists fs.tree dir then .error .notFound
   else
     let candidates := ancestors dir ++ fs.home.toList ++
       (fs.configDir.map (· ++ [fs.rustfmtName])).toList
@@ -812,6 +814,29 @@ def loadConfig {α} [DecidableEq α] (env : Env) (fs : FS α) (filePath : Option
         | some c' => .ok (c', p)
         | none => .error .panic
       | none => .ok (c, p)
+
+/-! ## Printing (`--print-config`) -/
+
+def i64Max : Nat := 2 ^ 63 - 1
+
+/-- mod.rs:210-223 `PartialConfig::to_toml` applied to `all_options()` (what `--print-config
+default|current` prints): every option except the generated list `tomlHidden`, in declaration
+order; `none` is the serialisation error of the `toml` crate for an integer above `i64::MAX`
+(F8: the four `usize::MAX` widths of `use_small_heuristics = "Off"`). -/
+def toToml (c : Config) : Option (List (String × Val)) :=
+  let l := (allOptions c).filter fun kv => !tomlHidden.contains kv.1
+  if l.all (fun kv => match kv.2 with | .nat n => n ≤ i64Max | _ => true) then some l else none
+
+/-- Print, then load the text as a config file (`from_toml`, no overrides): `none` when the
+configuration cannot be printed or the text is rejected. -/
+def roundTrip (env : Env) (c : Config) : Option Config :=
+  match toToml c with
+  | some l => fromToml env l none none none
+  | none => none
+
+/-- The option names on whose VALUE two configurations differ, in declaration order. -/
+def valueDiff (a b : Config) : List String :=
+  optionNames.filter fun k => decide ((getE a k).val ≠ (getE b k).val)
 
 /-! ## Operation sequences (for the driver's `cfg.apply` and the invariant theorems) -/
 
